@@ -222,3 +222,8 @@ def _f22(f, pid, case, clause, ctx):
     bad = [e for e in case.get("ev", []) if e["e"] == "call" and e["phase"] != "executing" and e["size"] > 0]
     reads = [e for e in case.get("ev", []) if e["e"] == "read" and e["phase"] != "executing"]
     return bool(bad) and all(e["size"] == 1 and e["phase"] == "constructing" for e in bad)
+
+
+@matcher("store_twin_targets_equal_content")
+def _f24(f, pid, case, clause, ctx):
+    return bool(case.get("call", {}).get("twin")) and clause == "target-differs-from-source-written-into-region"
